@@ -69,7 +69,7 @@ func genC15(d *Draw) Case {
 	switch fam {
 	case "C01":
 		// no known-finding trigger is enabled: every clause of the token game is checked for real
-		opts := ProgOpts{Kinds: []string{"seq", "xor", "and", "or", "loop", "sub", "condtask"}, OrEarlyEnd: true}
+		opts := ProgOpts{Kinds: []string{"seq", "xor", "and", "or", "loop", "sub", "condtask"}, OrEarlyEnd: true, Throws: true}
 		var kinds []string
 		for _, k := range opts.Kinds {
 			if d.N(3) != 0 {
